@@ -1,23 +1,32 @@
 """C10 correspondence: pypose.optim.solver (PINV, LSTSQ, Cholesky, CG) and pypose.sparse.ops
 (bsr_bsc_matmul, _sparse_csr_mm) vs Model/Solver.v and Model/BSR.v.
 
-* block-sparse products: exact route over Z.  Integer-valued blocks, every operand is handed to Coq
+* block-sparse products: exact route over Z.  Integer-valued blocks; every operand is handed to Coq
   together with torch's to_dense() of it and the implementation's result (crow, col, values and its
-  to_dense()); Coq checks the model's result field by field and against the dense product.  The dense
-  product is also checked on the implementation directly (independent integer arithmetic in Python).
-  Exhaustive patterns for one block row x one block column with up to 4 inner blocks, directed
-  patterns (empty operands, empty rows / columns, full), random patterns for all block sizes 1..4 and
-  densities 0..1; all 36 layout pairs of _sparse_csr_mm (path taken, raise / return, value).
-* CG: the iterates x_k of small dyadic SPD systems are observed through CG(maxiter=k) for k = 0..n+2
-  and the default, with / without initial guess and preconditioner, dense / CSR / COO / BSR storage;
-  Coq evaluates the model over Q (exact rationals) and compares with the float64 value up to 1e-7
-  relative (float64 rounds the divisions).  The property's own clause (|b - A x| <= tol |b|, zero rhs)
-  is checked on the implementation for sizes 1..40 and condition numbers up to 1e3.
-* direct solvers: what the theorems ASSUME about torch (Penrose conditions of pinv, least-squares /
-  minimum-norm property of lstsq, L L^T = A and info = 0 for SPD input, info != 0 otherwise,
-  cholesky_solve) is measured on sizes 1..40, batches, condition numbers up to 1e8, rank-deficient,
-  indefinite and singular matrices; the wrapper decisions (raise / return) go through Coq.
-  This validates hypotheses about torch on samples; it proves nothing about LAPACK."""
+  to_dense()); Coq checks the model's result field by field and against the dense product (bsr_bad).
+  The dense product is also checked on the implementation directly (integer arithmetic in Python from
+  the pattern description: the independent oracle used by search / replay).  Exhaustive patterns for one
+  block row x one block column with 1..4 inner blocks and for 2x2x2 grids, directed patterns (empty
+  operands, empty rows / columns, full, stored zero blocks), random grids for all block shapes 1..4 and
+  densities 0..1; all 36 layout pairs of _sparse_csr_mm with its callees instrumented (path taken,
+  raise / return, value) against the dispatch table (disp_bad).
+* CG: the iterates of small dyadic SPD systems are observed through CG(maxiter=k), k = 0..n+2 and the
+  default, with / without initial guess and preconditioner, dense / CSR / COO / BSR storage, column and
+  1-d right-hand sides; Coq evaluates the model over Q (exact rationals, one pass: cg_sq_values, proved
+  equal to CG(maxiter=k) of the model) and compares with the float64 values up to 1e-7 relative (float64
+  rounds the divisions; the tolerance test may be decided with tol(1 +- 2^-20)).  The property's own
+  clause (|b - A x| <= tol |b| with the exact rational residual, zero rhs) is checked on the
+  implementation for sizes 1..40 and condition numbers up to 1e3.
+* direct solvers: what the theorems ASSUME about torch (the four Penrose equations for pinv, least-squares
+  / minimum-norm property of lstsq, L L^T = A and info = 0 for SPD input, info != 0 otherwise,
+  cholesky_solve) is measured on sizes 1..40, batches, condition numbers up to 1e8, rank-deficient
+  (exact integer rank factorisations), indefinite and singular matrices; the wrappers' raise / return
+  decisions go through Coq (wrap_bad); the property itself (least squares, minimum norm, SPD solution,
+  failure clause) is checked on the wrappers' return values.
+  This validates hypotheses about torch on samples; it proves nothing about LAPACK.
+* Cholesky failure clause (repaired in /repo 50a1217, `fixed:` in known_findings.txt): the former witnesses
+  (A=[[1,2],[2,1]], [[1,1],[1,1]], [[-1]]) are kept as directed cases and every generated indefinite /
+  singular matrix (alone or as one member of a batch) must raise; a return is a VIOLATION."""
 import itertools, math
 from ..common import *
 
@@ -196,7 +205,7 @@ def check_bsr(ctx, torch, ops, files, tables):
         DA, DB, DP = bsr_oracle(c)
         nm = count_matches(c)
         ctx.case(('bsr', c['sm'], c['sn'], c['sp'], c['dm'], c['dn'], c['dp'], str(c['patA']), str(c['patB'])),
-                 nontrivial=nm > 0, branch='bsr:' + c['branch'], sample=dict(c, valsA='...', valsB='...') if i % 97 == 5 else None)
+                 nontrivial=nm > 0, branch='bsr:' + c['branch'], sample=dict(c, valsA='...', valsB='...') if i in (100, 640, 900) else None)
         ctx.count('bsr-blocksize:%dx%dx%d' % (c['dm'], c['dn'], c['dp']))
         ctx.count('bsr-matches:' + ('0' if nm == 0 else '1' if nm == 1 else '2-5' if nm <= 5 else '6+'))
         # the property, directly on the implementation
@@ -745,7 +754,7 @@ def check_direct(ctx, torch, solver, files, tables):
                 nonpd.append((cdesc, x))
     # the failure clause, on the implementation: a non-PD matrix must raise
     witness = dict(kind='cholesky', fam='indefinite', n=2, batch=(), k=1, upper=False, A=[[1.0, 2.0], [2.0, 1.0]], b=[[1.0], [1.0]])
-    # the Coq witnesses first: C10_cholesky_raises_refuted_witness (2x2) and C10_cholesky_raises_refuted (1x1)
+    # directed: the witnesses of C10_cholesky_old_raises_refuted(_witness) (the defect repaired in 50a1217)
     for cdesc in [witness, dict(witness, upper=True), dict(witness, fam='singular-psd', A=[[1.0, 1.0], [1.0, 1.0]]),
                   dict(witness, n=1, A=[[-1.0]], b=[[1.0]])] + [c for c, _ in nonpd]:
         why = replay(ctx, cdesc)
